@@ -83,6 +83,8 @@ type Cluster struct {
 	// ListOrder, when set, permutes the items of every List answer (kind, n) -> permutation of 0..n-1:
 	// a cache-backed client gives no ordering guarantee
 	ListOrder func(kind string, n int) []int
+	// Broken pods (ns/name) never become Ready again: KubeletProgress leaves them alone
+	Broken map[string]bool
 }
 
 // New builds an empty cluster at the virtual epoch. The virtual clock is
@@ -365,6 +367,12 @@ func (c *Cluster) Fork() *Cluster {
 	f.Trace = append([]string(nil), c.Trace...)
 	f.NoRecord = c.NoRecord
 	f.ListOrder = c.ListOrder
+	if c.Broken != nil {
+		f.Broken = map[string]bool{}
+		for k, v := range c.Broken {
+			f.Broken[k] = v
+		}
+	}
 	return f
 }
 
